@@ -78,7 +78,9 @@ def run(chk):
                 "each cell compared with the set of occupying signals and, on sampled bits, with the set of signals whose decoded value changes "
                 "when that payload bit is flipped; dummies + compress: every subset of used bits of 1- and 2-byte frames covered by signals of "
                 "width 1..8 (seeded split and order), both byte orders, 3-byte subsets sampled, plus random layouts up to 64 bytes; length: every "
-                "declared length 0..64 x random layouts of 1..64 bytes x calc_dlc/recalc max/force/other; fit_dlc and set_fd_type on -2..80 and "
+                "declared length 0..64 x signal sets of 1..64 bytes (disjoint, overlapping, multiplexed groups sharing bits, equal start bits with "
+                "different widths in both list orders, nested, mixed byte orders whose start numbers are ordered unlike their ends, shuffled) x "
+                "calc_dlc/recalc max/force/other, each followed by set_fd_type and fit_dlc; fit_dlc and set_fd_type alone on -2..80 and "
                 "large sizes. non-trivial = at least one gap before a signal / a cell with >= 1 signal / a length that changes or is kept by the "
                 "max rule; distinct by (frame length, signals, operation)")
     ok = chk.build_and_audit()
@@ -333,36 +335,127 @@ def run(chk):
     chk.sample(dict(op="compress", length=2, signals=[(3, 4, "intel"), (9, 5, "intel")], start_bits_after=[0, 4]))
 
     # ------------------------------------------------------------------ frame length
+    # The quantifier for lengths is "any mix of Intel/Motorola signals": overlap is allowed (multiplexed groups), the signal that
+    # ends last need not be the one with the highest start bit, nor the last one in the list.
+    def rand_sig(nb, le=None, maxw=64):
+        w = rng.randrange(1, min(nb, maxw) + 1)
+        return (rng.randrange(0, nb - w + 1), w, (rng.random() < 0.5) if le is None else le)
+
+    def length_shape(Ls):
+        """(shape name, signals) on a bit space of Ls bytes; every signal has width >= 1 and start >= 0"""
+        nb = 8 * Ls
+        kind = rng.choice(["disjoint", "disjoint", "overlap", "overlap", "mux-group", "same-start", "nested", "mixed-crossed", "low-start-long", "empty"])
+        if kind == "disjoint":
+            sigs = [(d["start"], d["size"], d["le"]) for d in layouts.gen_layout(rng, Ls, max_signals=rng.choice([1, 2, 4, 8]))]
+        elif kind == "overlap":
+            sigs = [rand_sig(nb) for _ in range(rng.randrange(2, 7))]
+        elif kind == "mux-group":
+            # a multiplexer plus groups that share the bits behind it, widths differ per group
+            le = rng.random() < 0.5
+            mw = rng.randrange(1, min(8, nb) + 1)
+            sigs = [(0, mw, le)]
+            for _ in range(rng.randrange(2, 6)):
+                st = rng.randrange(mw, nb) if nb > mw else 0
+                sigs.append((st, rng.randrange(1, nb - st + 1), le))
+        elif kind == "same-start":
+            le = rng.random() < 0.5
+            st = rng.randrange(0, nb)
+            ws = sorted({rng.randrange(1, nb - st + 1) for _ in range(rng.randrange(2, 5))})
+            sigs = [(st, w, le) for w in ws]            # shorter first; the reversed order comes from the shuffle coin below
+            if rng.random() < 0.5:
+                sigs.reverse()
+            if rng.random() < 0.5:
+                sigs.append(rand_sig(nb))
+            return kind, sigs                           # keep the deliberate order
+        elif kind == "nested":
+            le = rng.random() < 0.5
+            w = rng.randrange(2, nb + 1) if nb >= 2 else 1
+            st = rng.randrange(0, nb - w + 1)
+            iw = rng.randrange(1, w + 1)
+            ist = rng.randrange(st, st + w - iw + 1)
+            sigs = [(st, w, le), (ist, iw, le if rng.random() < 0.7 else not le)]
+        elif kind == "mixed-crossed":
+            # a long Motorola signal with a small internal start number and a short Intel signal with a larger one (and vice versa)
+            w = rng.randrange(max(1, nb // 2), nb + 1)
+            st = rng.randrange(0, nb - w + 1)
+            long_le = rng.random() < 0.5
+            sw = rng.randrange(1, min(8, nb) + 1)
+            sst = rng.randrange(st, min(st + w, nb - sw) + 1) if st <= nb - sw else nb - sw
+            sigs = [(st, w, long_le), (sst, sw, not long_le)]
+        elif kind == "low-start-long":
+            # the signal with the highest start bit is short, an earlier one reaches further
+            le = None if rng.random() < 0.5 else (rng.random() < 0.5)
+            w = rng.randrange(max(1, nb // 2), nb + 1)
+            st = rng.randrange(0, nb - w + 1)
+            sigs = [(st, w, (rng.random() < 0.5) if le is None else le)]
+            for _ in range(rng.randrange(1, 4)):
+                sw = rng.randrange(1, max(1, min(8, w // 2)) + 1)
+                sst = rng.randrange(st + 1, st + w - sw + 1) if w - sw >= 1 else st
+                sigs.append((sst, sw, (rng.random() < 0.5) if le is None else le))
+        else:
+            sigs = []
+        rng.shuffle(sigs)
+        return kind, sigs
+
+    def check_lengths(declared, kind, sigs):
+        used = [n for st, sz, le in sigs for n in layouts.positions(le, st, sz)]     # LSB0 numbers: byte n // 8
+        need = max(used) // 8 + 1 if used else 0      # smallest byte count containing every occupied position
+        ends_last = max(range(len(sigs)), key=lambda i: max(layouts.positions(sigs[i][2], sigs[i][0], sigs[i][1]))) if sigs else None
+        crossed = bool(sigs) and (sigs[ends_last][0] != max(s[0] for s in sigs) or ends_last != len(sigs) - 1)
+        for mode in range(4):
+            fr, objs = mk(declared, sigs)
+            db = C.CanMatrix()
+            db.add_frame(fr)
+            if mode == 0:
+                fr.calc_dlc()
+            else:
+                db.recalc_dlc(["max", "force", "keep"][mode - 1])
+            got = fr.size
+            want = max(declared, need) if mode in (0, 1) else (need if mode == 2 else declared)
+            chk.case(("dlc", declared, mode, tuple(sigs)), (want != declared or mode != 3) and (crossed or kind == "disjoint"))
+            chk.count("dlc-" + ["calc_dlc", "recalc-max", "recalc-force", "recalc-other"][mode])
+            inp = dict(op=["calc_dlc", "recalc_dlc(max)", "recalc_dlc(force)", "recalc_dlc(keep)"][mode], declared=declared, shape=kind,
+                       **desc(declared, sigs))
+            if got != want:
+                key = "calc-dlc-shrinks" if (mode in (0, 1) and got < declared) else ("calc-dlc-not-minimal" if mode in (0, 1) else
+                                                                                        ("recalc-force-not-minimal" if mode == 2 else "recalc-other-strategy"))
+                chk.violation(key, "computed frame length is not the smallest byte count containing all signals (never below the declared "
+                              "length unless forced)", inp, want, got)
+            add(1603, [[declared, mode]] + groups(sigs), [[got]], inp)
+            if mode == 3:
+                continue
+            # the importers' chain: length, then CAN FD type, then fit to a permitted FD length
+            was_fd = rng.random() < 0.3
+            fr.is_fd = was_fd
+            db.set_fd_type()
+            if bool(fr.is_fd) != (was_fd or got > 8) or fr.size != got:
+                chk.violation("set-fd-type", "set_fd_type after the length computation: a frame longer than 8 bytes must become FD, others stay",
+                              dict(inp, is_fd_before=was_fd), was_fd or got > 8, fr.is_fd)
+            fr.fit_dlc()
+            cands = [x for x in FD if x >= got]
+            fit_want = min(cands) if cands else got
+            if fr.size != fit_want:
+                chk.violation("fit-dlc", "fit_dlc after the length computation does not give the smallest permitted CAN FD length not below it",
+                              dict(inp, size_before_fit=got), fit_want, fr.size)
+            elif want == got and fr.size < max(need, 0) and mode != 3:
+                chk.violation("fit-dlc", "fitted length does not contain all signals", dict(inp, size_before_fit=got), need, fr.size)
+        chk.count("length-shape-" + kind)
+        if crossed:
+            chk.count("length-last-ending-signal-is-not-highest-start-or-not-last-listed")
+
+    # the three shapes of the report that motivated this generator, at every declared length that matters
+    fixed = [("mux-group", [(8, 40, True), (16, 8, True)]), ("mux-group", [(16, 8, True), (8, 40, True)]),
+             ("same-start", [(8, 4, True), (8, 20, True)]), ("same-start", [(8, 20, True), (8, 4, True)]),
+             ("same-start", [(3, 2, False), (3, 30, False)]), ("mixed-crossed", [(4, 12, False), (5, 3, True)]),
+             ("mixed-crossed", [(5, 3, True), (4, 12, False)]), ("nested", [(0, 64, True), (60, 2, True)])]
+    for kind, sigs in fixed:
+        for declared in (0, 1, 2, 3, 6, 8, 9):
+            check_lengths(declared, kind, sigs)
     for declared in range(0, 65):
-        for _ in range(6 if not thorough else 30):
-            Ls = rng.randrange(1, 65)
-            lay = layouts.gen_layout(rng, Ls, max_signals=rng.choice([1, 2, 4, 8]))
-            sigs = [(d["start"], d["size"], d["le"]) for d in lay]
-            if rng.random() < 0.1:
-                sigs = []
-            top = -1
-            for st, sz, le in sigs:
-                top = max([top] + layouts.bigpos(le, st, sz))
-            need = top // 8 + 1          # smallest byte count containing every occupied bit (0 without signals)
-            for mode in range(4):
-                fr, objs = mk(declared, sigs)
-                if mode == 0:
-                    fr.calc_dlc()
-                else:
-                    db = C.CanMatrix()
-                    db.add_frame(fr)
-                    db.recalc_dlc(["max", "force", "keep"][mode - 1])
-                got = fr.size
-                want = max(declared, need) if mode in (0, 1) else (need if mode == 2 else declared)
-                chk.case(("dlc", declared, mode, tuple(sigs)), want != declared or mode != 3)
-                chk.count("dlc-" + ["calc_dlc", "recalc-max", "recalc-force", "recalc-other"][mode])
-                inp = dict(op=["calc_dlc", "recalc_dlc(max)", "recalc_dlc(force)", "recalc_dlc(keep)"][mode], declared=declared, **desc(declared, sigs))
-                if got != want:
-                    key = "calc-dlc-shrinks" if (mode in (0, 1) and got < declared) else ("calc-dlc-not-minimal" if mode in (0, 1) else
-                                                                                            ("recalc-force-not-minimal" if mode == 2 else "recalc-other-strategy"))
-                    chk.violation(key, "computed frame length is not the smallest byte count containing all signals (never below the declared "
-                                  "length unless forced)", inp, want, got)
-                add(1603, [[declared, mode]] + groups(sigs), [[got]], inp)
+        for _ in range(10 if not thorough else 60):
+            Ls = rng.choice([1, 1, 2, 2, 3, 4, 8, 8, 12, 16, 24, 32, 48, 64, rng.randrange(1, 65)])
+            kind, sigs = length_shape(Ls)
+            check_lengths(declared, kind, sigs)
     sizes = list(range(-2, 81)) + [100, 255, 256, 1000, 4095]
     for size in sizes:
         fr = C.Frame("f", size=size)
